@@ -82,6 +82,12 @@ pub trait SimData: GD + HasHost + Clone {
     fn retain_and_optimize(&mut self) -> bool {
         true
     }
+    /// SimpleGarnishData: the "template + working copy" pattern — mark everything built so far as constant
+    /// data and take a working copy with `clone_with_aux_without_data` (constants, instructions, jump
+    /// table, symbol names and the host's callbacks are carried over). None on Basic.
+    fn working_copy(&mut self) -> Option<Result<Self, DataError>> {
+        None
+    }
     /// Basic: retain_all_current_data (what a host does after a build); no-op on Simple
     fn retain_now(&mut self) {}
     /// Basic: optimize(&[]) with the retention count as it is; no-op on Simple. false = refused
@@ -149,6 +155,14 @@ impl SimData for SimpleW {
 
     fn symbol_name(&self, sym: u64) -> Option<String> {
         self.get_symbols().get(&sym).cloned()
+    }
+
+    fn working_copy(&mut self) -> Option<Result<Self, DataError>> {
+        let last = self.get_data_len().saturating_sub(1);
+        if let Err(e) = self.set_end_of_constant(last) {
+            return Some(Err(e));
+        }
+        Some(self.clone_with_aux_without_data())
     }
 }
 
